@@ -21,6 +21,7 @@ import Driver.Layout
 import Driver.MdsFile
 import Driver.Diag
 import Driver.Hist
+import Driver.Total
 open Driver
 
 def allHandlers : List Handler :=
@@ -42,6 +43,7 @@ def allHandlers : List Handler :=
   ++ MdsFileD.handlers
   ++ DiagD.handlers
   ++ HistD.handlers
+  ++ TotalD.handlers
 
 def answerModel (cmd arg : String) : String :=
   match allHandlers.find? (·.cmd == cmd) with
